@@ -382,8 +382,35 @@ theorem fromDict_inv (cls : String) (cfg : Cfg) (fs : List (FieldDef × Ty)) (d 
         exact Or.inr ⟨o, kvs, vals, rfl, hv, h.symm⟩
     · cases h
 
-theorem nullable_conf_none (t : Ty) (h : t.nullableAnn = true) : conf t .none = true := by
-  cases t <;> simp [Ty.nullableAnn] at h <;> simp [conf, isNone]
+theorem isNone_eq {v : V} (h : isNone v = true) : v = .none := by
+  cases v <;> simp [isNone] at h <;> rfl
+
+mutual
+theorem nullable_conf_none : ∀ (t : Ty), t.nullableAnn = true → conf t .none = true
+  | .union ts, h => by
+      simp only [Ty.nullableAnn] at h
+      simp only [conf]
+      exact nullableL_confAny ts h
+  | .lit vals, h => by
+      simp only [Ty.nullableAnn, List.any_eq_true] at h
+      obtain ⟨cw, hm, hn⟩ := h
+      simp only [conf, List.any_eq_true]
+      exact ⟨cw, hm, by rw [isNone_eq hn]; simp [BEq.beq, V.beq]⟩
+  | .any, _ => by simp [conf]
+  | .none, _ => by simp [conf, isNone]
+  | .opt _, _ => by simp [conf, isNone]
+  | .bool, h | .int, h | .float, h | .str, h | .leaf _, h | .enum _ _, h | .coll _ _, h | .map _ _ _, h
+  | .chain _ _, h | .tvar _, h | .tfix _, h | .tunp _ _ _, h | .nt _ _ _ _, h | .td _ _ _, h | .dc _ _ _, h => by
+      simp [Ty.nullableAnn] at h
+theorem nullableL_confAny : ∀ (ts : List Ty), Ty.nullableAnnL ts = true → confAny ts .none = true
+  | [], h => by simp [Ty.nullableAnnL] at h
+  | t :: ts, h => by
+      simp only [Ty.nullableAnnL, Bool.or_eq_true] at h
+      simp only [confAny, Bool.or_eq_true]
+      rcases h with h | h
+      · exact Or.inl (nullable_conf_none t h)
+      · exact Or.inr (nullableL_confAny ts h)
+end
 
 theorem defaultsOnly_conf : ∀ (fs : List (FieldDef × Ty)) (vals : List (String × V)), WFF fs →
     defaultsOnly fs = some vals → confF fs vals = true
